@@ -757,7 +757,7 @@ def run_native(nat, spec, units, work, tier, seed):
         if m:
             kn.append(m.group(1))
     env['VERIF_KNOWN'] = ','.join(kn)
-    rc, out, secs = sh([exe] + [str(x) for x in a], timeout=nat.timeout, env=env)
+    rc, out, secs = sh([exe] + [str(x) for x in a], timeout=int(nat.timeout * float(os.environ.get('VERIF_TIMEOUT_FACTOR', '4'))), env=env)
     res = dict(exe=exe, log=out[-4000:], secs=secs)
     res['known'] = re.findall(r'^KNOWN (\w+)\s*(\{.*\})$', out, re.M)
     m = re.search(r'(?:^|\x1b\[0m)OK (\d+)(.*)$', out, re.M)
